@@ -393,6 +393,10 @@ func (s *Storer) newRdbWCloseObserver(w *RdbWriter, rdb *dataSetRdb, ds *dataSet
 		if len(args) > 2 {
 			if failed, ok := args[2].(bool); ok && failed && ds.GetRdb() == rdb {
 				ds.SetRdb(nil)
+				// the readers that were following this reception read a file that is gone and
+				// will never be completed; once the rdb has left the index no reset can reach
+				// them any more, so end them here (the writer is already unregistered)
+				rdb.Close()
 			}
 		}
 	}
